@@ -209,6 +209,7 @@ func satisfied(effective []alt, creds map[string]cred) (bool, map[string]bool) {
 
 func main() {
 	c := core.New("C06")
+	c.ReplayFallback()
 	swagger := c.BuildSwagger()
 	rng := rand.New(rand.NewSource(c.Seed))
 	type docSpec struct {
